@@ -30,7 +30,7 @@ def _exprs_to_axes(exprs):
     values2 = {}
     for name, xs in values.items():
         shape = np.amax([coord for coord, value in xs], axis=0) + 1
-        value = np.zeros(shape, dtype="int32")
+        value = np.zeros(shape, dtype="int64")
         for coord, v in xs:
             value[coord] = v
         if value.shape == ():
@@ -120,7 +120,7 @@ def solve_axes(description: str, *tensors: Tensor, **parameters: npt.ArrayLike) 
         >>> einx.solve_axes("a b, c b a", x, None, c=3)
         {'a': 3, 'b': 4, 'c': 3}
         >>> einx.solve_axes("a..., c a...", x, None, c=3)
-        {'a': array([3, 4], dtype=int32), 'c': 3}
+        {'a': array([3, 4]), 'c': 3}
     """
     exprs = _solve(description, [_get_shape(tensor) for tensor in tensors], parameters, reraise=True, cse=False)
     return _exprs_to_axes(exprs)
